@@ -322,14 +322,15 @@ def all_states(ctx):
     S = []
     small = range(-4, 5)
 
-    def with_drops(d, every=True):
+    def with_drops(d, every=True, sample=3):
+        """every drop position 0..count+1, or `sample` of them (always including 0 and the end)"""
         c = count(d)
         if c == math.inf or c > LONG:
             ks = [0, 1, 2, 5] if every else [rng.choice([0, 1, 3])]
         else:
             ks = list(range(0, c + 2))
-            if not every and len(ks) > 3:
-                ks = sorted(rng.sample(ks, 3))
+            if not every and len(ks) > sample:
+                ks = sorted(set(rng.sample(ks, sample - 2) + [0, c]))
         for k in ks:
             S.append((d, k))
 
@@ -337,19 +338,16 @@ def all_states(ctx):
     for a in small:
         for b in small:
             for c in small:
-                every = (not quick) or rng.random() < 0.25
-                with_drops(("til", a, b, c, True), every)
-                if c == 1 and rng.random() < 0.5:
-                    with_drops(("til", a, b, 1, False), False)
-                if not quick or rng.random() < 0.5:
-                    with_drops(("to", a, b, c, True), every and not quick)
-                if c == 1 and rng.random() < 0.3:
-                    with_drops(("to", a, b, 1, False), False)
+                with_drops(("til", a, b, c, True), (not quick) or rng.random() < 0.6)
+                if c == 1:
+                    with_drops(("til", a, b, 1, False), not quick)
+                    with_drops(("to", a, b, 1, False), not quick)
+                with_drops(("to", a, b, c, True), (not quick) or rng.random() < 0.3)
     # extremes: bounds and steps at +-2^63+-1
     ext = [s * (I63 + e) for s in (1, -1) for e in (-1, 0, 1)]
     pool = ext + [0, 1, -1, 3]
     steps = ext + [1, -1, 2, -3]
-    for _ in range(ctx.n(250, 1500)):
+    for _ in range(ctx.n(500, 3000)):
         a, b, c = rng.choice(pool), rng.choice(pool), rng.choice(steps)
         with_drops((rng.choice(["til", "to"]), a, b, c, True), False)
     S.append((("til", 0, U64, 1, False), 0))
@@ -359,13 +357,13 @@ def all_states(ctx):
     # stream(seq), combinatorial streams: base lists of length 0..5, selection sizes 0..len+1
     for n in range(0, 6):
         with_drops(("wvec", n))
-        with_drops(("perm", n), n <= 3 or not quick)
-        with_drops(("subs", n), n <= 3 or not quick)
+        with_drops(("perm", n), n <= 4 or not quick, 14)
+        with_drops(("subs", n), n <= 4 or not quick, 12)
         for k in range(0, n + 2):
-            with_drops(("comb", n, k), n <= 4 or not quick)
+            with_drops(("comb", n, k))
         for k in range(0, 5):
             if n ** k <= 1100:
-                with_drops(("cart", n, k), n ** k <= 30 or not quick)
+                with_drops(("cart", n, k), n ** k <= 130 or not quick, 8)
     # endless streams
     for a in list(small) + ext:
         with_drops(("iota", a), a in (0, 3))
@@ -382,7 +380,7 @@ def all_states(ctx):
         with_drops(("filter", d), False) if d[0] not in ("iterate",) else None
         with_drops(("map", ("filter", d)), False) if d[0] not in ("iterate",) else None
         with_drops(("filter", ("map", d)), False) if d[0] in ("wvec",) else None
-    for _ in range(ctx.n(60, 400)):
+    for _ in range(ctx.n(150, 800)):
         m = rng.choice([2, 2, 3])
         parts = [rng.choice(inner + [("perm", 3), ("subs", 2), ("repeat", 7)]) for _ in range(m)]
         with_drops(("zip", parts), False)
@@ -403,11 +401,13 @@ def build_case(ctx, d, k, uid):
         L = None
     else:
         L = list(itertools.islice(py_iter(d), k, None))
-        obs = finite_observations(ctx, L, uid)
+        # thorough: most of the short streams get the full index and slice-bound grids
+        full = (not ctx.quick()) and len(L) <= 4 and ctx.rng.random() < 0.6
+        obs = finite_observations(ctx, L, uid, full)
         final = Obs("unchanged", [], "list(s)", "list", "ok " + canon(L))
         kind = "finite"
     ctx.rng.shuffle(obs)
-    if kind == "finite":
+    if kind == "finite" and not (L is not None and not ctx.quick() and len(obs) > 40):
         obs = obs[:ctx.n(10, 16)]
     obs.append(final)
     return dict(desc=d, k=k, setup=setup, obs=obs, kind=kind, n=(len(L) if L is not None else None))
@@ -441,7 +441,9 @@ def observed(r):
 def agrees(obs, exp):
     if isinstance(exp, tuple):  # elements only: a list or a stream value
         want = ",".join(canon(x) for x in exp[1])
-        return obs in (f"ok L[{want}]", f"ok T[{want}]")
+        # (the harness forces at most 64 elements of a stream value and marks a longer one)
+        cut = ",".join(canon(x) for x in exp[1][:64]) + ",..." if len(exp[1]) > 64 else want
+        return obs in (f"ok L[{want}]", f"ok T[{cut}]")
     return obs == exp
 
 
@@ -457,14 +459,19 @@ def known_class(case, o, impl):
 
 def evaluate(ctx, cases, runner):
     progs = [[c["setup"]] + [o.src for o in c["obs"]] for c in cases]
+    import time
+    t0 = time.time()
     res = common.run_prog(progs, timeout=20.0)
+    common.log(f"[C11] implementation: {len(progs)} programs in {time.time() - t0:.1f}s")
     mlines, mref = [], []
     for ci, c in enumerate(cases):
         for oi, o in enumerate(c["obs"]):
             if o.model:
                 mlines.append(f"{model_tokens(c['desc'])} ; {c['k']} ; {o.model}")
                 mref.append((ci, oi))
+    t0 = time.time()
     mres = common.run_model(runner, mlines) if runner else []
+    common.log(f"[C11] model: {len(mlines)} lines in {time.time() - t0:.1f}s")
     msays = {ref: m for ref, m in zip(mref, mres)}
     bad, evals = [], 0
     for ci, (c, r) in enumerate(zip(cases, res)):
@@ -565,14 +572,19 @@ def special_cases(ctx, runner):
 
 
 def run(ctx):
+    import time
+    t0 = time.time()
     runner = common.standard_prelude(ctx)
+    common.log(f"[C11] prelude (proof stage, harness and runner builds) {time.time() - t0:.1f}s")
     states = all_states(ctx)
     cases = []
     for uid, (d, k) in enumerate(states):
         if is_ctor_error(d):
             continue
         cases.append(build_case(ctx, d, k, uid))
+    t1 = time.time()
     bad, evals = evaluate(ctx, cases, runner)
+    common.log(f"[C11] {len(cases)} stream states, {evals} observations evaluated in {time.time() - t1:.1f}s")
     report(ctx, bad)
     evals += special_cases(ctx, runner)
     distinct = {(json.dumps(c["desc"]), c["k"], o.key()) for c in cases for o in c["obs"]}
